@@ -287,6 +287,8 @@ def rand_composite(rng, depth, big=False):
 def small_universe(level=1):
     """Enumerated small types: every primitive kind x boundary widths x cast modes at every bit offset 0..7, arrays of them,
     nested sealed / delimited composites, unions.  Deterministic."""
+    import copy
+
     res = []
     widths = [1, 2, 3, 7, 8, 9, 13, 16, 17, 31, 32, 33, 63, 64] if level > 1 else [1, 3, 8, 9, 16, 17, 32, 33, 64]
     prims = []
@@ -334,6 +336,12 @@ def small_universe(level=1):
         res.append(S(pre + [FA(F(64), 1), U(3)]))
         res.append(S(pre + [VA(U(4), 5), B()]))
         res.append(S(pre + [FA(I(3), 7)]))
+    # alternatives / fields whose in-memory form owns heap memory behind a FIXED-length array (C++: std::array of objects holding containers)
+    owner = S([U(8), VA(U(8), 3)])
+    owner_u = UN([VA(I(9), 2), U(8)])
+    res.append(UN([FA(copy.deepcopy(owner), 2), U(8)]))
+    res.append(UN([U(5, False), FA(copy.deepcopy(owner_u), 2), VA(copy.deepcopy(owner), 2)]))
+    res.append(S([FA(copy.deepcopy(owner), 2), UN([FA(copy.deepcopy(owner), 1), B()])]))
     res.append(S([V(3), B(), V(4), U(16), V(8)]))
     res.append(S([]))
     res.append(S([VA(U(8), 255)]))
@@ -418,10 +426,10 @@ def rand_value(rng, t, wild=False, f64_ok=False, mode="rand"):
         if cap > 20 and mode != "max":
             n = rng.choice([0, 1, 2, rng.randint(0, 20), cap])
         vals = [rand_value(rng, t["e"], wild, f64_ok, mode) for _ in range(n)]
-        if wild and rng.random() < 0.15 and cap < 250:
-            bad = rng.choice([cap + 1, cap + 2, 255])
-            if bad > cap:
-                return ("badcount", bad, [rand_value(rng, t["e"], wild, f64_ok, mode) for _ in range(cap)])
+        if wild and rng.random() < 0.15:
+            # a count above the capacity (an object without a representation); cap + 256 / cap + 65536 have the low bits of a valid count
+            bad = rng.choice([cap + 1, cap + 2, max(255, cap + 1), cap + 256, cap + 65536])
+            return ("badcount", bad, [rand_value(rng, t["e"], wild, f64_ok, mode) for _ in range(min(cap, 20))])
         return vals
     if k == "struct":
         return [rand_value(rng, f, wild, f64_ok, mode) for f in t["fields"]]
@@ -473,6 +481,8 @@ def boundary_value(t, j, wild=False):
         n = [0, cap, 1, max(cap - 1, 0)][j % 4]
         if cap > 16:
             n = [0, cap, 1, 7][j % 4]
+        if wild and j % 4 == 3:  # the smallest count without a representation (capacities 255 / 65535: the prefix cannot even carry it)
+            return ("badcount", cap + 1, [boundary_value(t["e"], j + i, False) for i in range(min(cap, 8))])
         return [boundary_value(t["e"], j + i, wild) for i in range(n)]
     if k == "struct":
         return [boundary_value(f, j + i, wild) for i, f in enumerate(t["fields"])]
